@@ -348,7 +348,7 @@ def cases(rng, tier):
                 out.append(dict(base, body=["str", t]))
                 out.append(dict(base, body=["iter", [t]]))
                 out.append(dict(base, body=["iter", ["head", t, b"tail"]]))
-    for _ in range(300 if tier == "quick" else 30000):
+    for _ in range(1000 if tier == "quick" else 30000):
         c = one_case(rng)
         c["body"] = rand_body(rng)
         out.append(c)
@@ -368,7 +368,7 @@ def cases(rng, tier):
                     else:
                         c["headers"] = [["X-A", s]]
                     out.append(c)
-    for _ in range(3000 if tier == "quick" else 200000):
+    for _ in range(8000 if tier == "quick" else 200000):
         out.append(one_case(rng))
     return out
 
